@@ -385,3 +385,39 @@ def divpow2_real(ctx):
         k = 3
         r = _divide_by_power_of_two(x, np.array([[k]]))
         ctx.ensure("result==array/2^k", ctx.conj([ctx.zero(r[i, j] * 2 ** k - x[i, j]) for i in range(2) for j in range(2)]))
+
+
+@case("C01", "join.meet.lattice.extreme", [], kind="bounded", functions=FUN + ["geometer.point._divide_by_power_of_two"],
+      bound="2D/3D joins and meets of axis points/lines/planes with coordinates in {1, -3, 2**30, 2**60, -3*2**60} (every result entry is a single product: exact in double precision), "
+            "incidence checked EXACTLY with rational arithmetic; normalisation must not change the projective class")
+def join_meet_extreme(ctx):
+    from fractions import Fraction
+
+    import geometer as g
+
+    vals = [1, -3, 2 ** 30, 2 ** 60, -3 * 2 ** 60]
+
+    def F(x):
+        return [Fraction(float(v)) for v in np.asarray(x).reshape(-1)]
+
+    def dotF(a, b):
+        return sum(x * y for x, y in zip(a, b))
+
+    # axis points: every entry of the result is a single product, hence exact in double precision
+    for a, b in itertools.product(vals, repeat=2):
+        p, q = (a, 0, 1), (0, b, 1)
+        l = g.join(g.Point([float(v) for v in p]), g.Point([float(v) for v in q]))
+        ctx.ensure("2d:join-incident-exactly", dotF(F(l.array), [Fraction(x) for x in p]) == 0 and dotF(F(l.array), [Fraction(x) for x in q]) == 0 and any(F(l.array)),
+                   witness=dict(p=p, q=q, got=l.array.tolist()))
+        x = g.meet(g.Line([float(v) for v in p]), g.Line([float(v) for v in q]))
+        ctx.ensure("2d:meet-incident-exactly", dotF(F(x.array), [Fraction(v) for v in p]) == 0 and dotF(F(x.array), [Fraction(v) for v in q]) == 0 and any(F(x.array)),
+                   witness=dict(g=p, h=q, got=x.array.tolist()))
+    for a, b, c in itertools.product(vals[:4], repeat=3):
+        tri = [(a, 0, 0, 1), (0, b, 0, 1), (0, 0, c, 1)]
+        e = g.join(*[g.Point([float(x_) for x_ in v]) for v in tri])
+        ctx.ensure("3d:join-PPP-incident-exactly", all(dotF(F(e.array), [Fraction(x) for x in v]) == 0 for v in tri) and any(F(e.array)), witness=dict(points=tri, got=e.array.tolist()))
+        x = g.meet(*[g.Plane([float(x_) for x_ in v]) for v in tri])
+        ctx.ensure("3d:meet-EEE-incident-exactly", all(dotF(F(x.array), [Fraction(v_) for v_ in v]) == 0 for v in tri) and any(F(x.array)), witness=dict(planes=tri, got=x.array.tolist()))
+        ln = g.join(g.Point([float(x_) for x_ in tri[0]]), g.Point([float(x_) for x_ in tri[1]]))
+        ok = all(all(v == 0 for v in [sum(F(ln.array)[4 * k + l_] * Fraction(pt[k]) for k in range(4)) for l_ in range(4)]) for pt in tri[:2])
+        ctx.ensure("3d:join-PP-incident-exactly", ok and any(F(ln.array)), witness=dict(points=tri[:2], got=ln.array.tolist()))
